@@ -23,6 +23,8 @@ Property sentence                                                        theorem
                                                                            nonce, ciphertext: the session keys enter
                                                                            only through the cipher; secrecy of the
                                                                            ciphertext is the cipher's, trusted)
+  the same after a restart with a changed stale-key-count (key file     reload_gap, window_after_reload,
+   holding more or fewer keys than the new history + 1)                  issued_after_reload
   invariant used by `window`                                             state_after, rotate_never_panics
 -/
 import NtpVerif.Proofs.KeySet
@@ -149,6 +151,91 @@ theorem window (key : Nat → κ) (hinj : ∀ i j, key i = key j → i = j) (h n
     · have := hinj _ _ (Option.some.inj hkey')
       omega
     · cases hkey'
+
+/-- **reload_gap** — between a (re)load and the first rotation every key held (every key of the file) still
+    decodes its cookies, whatever the configured history is: `load` restores the stored set exactly (C27),
+    the window of the new configuration is applied by rotations. -/
+theorem reload_gap (p : Provider κ) (hoff : p.current.idOffset < 4294967296)
+    (j : Nat) (hj : j < 4294967296) (e : Enc κ) (hkey : p.current.keys[j]? = some e.key)
+    (id : Nat) (hid : id % 4294967296 = (p.current.idOffset + j) % 4294967296)
+    (c : Cookie) (hwf : c.WF) (hn : e.nonce.length = 16) (hct : e.ct.length = c.plaintext.length + 16)
+    (hpt : e.pt = c.plaintext) (t : Table κ) (hfresh : Fresh t) (het : e ∈ t) :
+    decode t p.current (mkCookie id e.ct.length e.nonce e.ct) = some c := by
+  apply decode_issued e c hwf id hn hct hpt ?_ (decrypt_fresh_mem hfresh het)
+  have : (id % M32 + M32 - p.current.idOffset % M32) % M32 = j := by simp only [M32] at *; omega
+  rw [this]; exact hkey
+
+/-- **window_after_reload** — a provider `p` with ANY key list (e.g. loaded from a file written under a
+    larger or smaller history), rotated `r ≥ 1` times under its own history `p.history`: a cookie made under
+    the `j`-th key of the lineage (the keys `p` started with, then the new ones; id = id offset + j) decodes
+    iff at most `p.history` keys of the lineage are newer — i.e. from the first rotation after a reload on,
+    exactly the newest `history + 1` keys are valid, however many keys the file held. -/
+theorem window_after_reload (p : Provider κ) (fresh : Nat → κ) (r : Nat) (hr : 1 ≤ r)
+    (hoff : p.current.idOffset < 4294967296) (hsz : p.current.keys.length + r < 4294967296)
+    (hnd : (lineage p fresh r).Nodup)
+    (j : Nat) (e : Enc κ) (hkey : (lineage p fresh r)[j]? = some e.key)
+    (id : Nat) (hid : id % 4294967296 = (p.current.idOffset + j) % 4294967296)
+    (c : Cookie) (hwf : c.WF) (hn : e.nonce.length = 16) (hct : e.ct.length = c.plaintext.length + 16)
+    (hpt : e.pt = c.plaintext) (t : Table κ) (hfresh : Fresh t) (het : e ∈ t) :
+    decode t (rotFrom p fresh r).current (mkCookie id e.ct.length e.nonce e.ct) =
+      if p.current.keys.length + r - 1 - j ≤ p.history then some c else none := by
+  obtain ⟨_, s2, s3⟩ := rotFrom_state p fresh r hr
+  have hjl : j < p.current.keys.length + r := by
+    rcases Nat.lt_or_ge j (lineage p fresh r).length with h | h
+    · rw [lineage_length] at h; exact h
+    · rw [List.getElem?_eq_none h] at hkey; cases hkey
+  by_cases hw : p.current.keys.length + r - 1 - j ≤ p.history
+  · rw [if_pos hw]
+    apply decode_issued e c hwf id hn hct hpt ?_ (decrypt_fresh_mem hfresh het)
+    have hidx : (id % M32 + M32 - (rotFrom p fresh r).current.idOffset % M32) % M32 =
+        j - (p.current.keys.length + r - (p.history + 1)) := by
+      rw [s3]; simp only [M32] at *; omega
+    rw [hidx, s2, List.getElem?_drop, ← hkey]
+    congr 1; omega
+  · rw [if_neg hw]
+    apply decode_none_of_forall
+    intro c' hd
+    obtain ⟨_, _, e', he't, hkey', hn', _, _⟩ := decode_some hd
+    have hnb : cookieNonce (mkCookie id e.ct.length e.nonce e.ct) = e.nonce :=
+      (mkCookie_fields _ _ _ _ hn).2.2.1
+    have : e' = e := hfresh e' he't e het (Or.inl (by rw [hn', hnb]))
+    rw [this, s2, List.getElem?_drop, ← hkey] at hkey'
+    have := (List.getElem?_inj (by rw [lineage_length]; exact hjl) hnd).mp hkey'.symm
+    omega
+
+omit [DecidableEq κ] in
+/-- **issued_after_reload** — after `r ≥ 1` rotations of any provider, `encode` encrypts under the newest
+    key (`fresh (r-1)`, the last of the lineage) and names it `id offset + position in the lineage`. -/
+theorem issued_after_reload (p : Provider κ) (fresh : Nat → κ) (r : Nat) (hr : 1 ≤ r)
+    (hsz : p.current.keys.length + r < 4294967296)
+    (c : Cookie) (nonce ct b : Bytes) (e : Enc κ)
+    (henc : encode (rotFrom p fresh r).current c nonce ct = some (b, e)) :
+    (lineage p fresh r)[p.current.keys.length + r - 1]? = some e.key ∧ e.key = fresh (r - 1) ∧
+    cookieId b = (p.current.idOffset + (p.current.keys.length + r - 1)) % 4294967296 := by
+  obtain ⟨_, s2, s3⟩ := rotFrom_state p fresh r hr
+  have s4 := rotFrom_primary p fresh r hr
+  obtain ⟨k, hk, hn, _, hb, he⟩ := encode_some henc
+  have hl : (rotFrom p fresh r).current.keys.length =
+      p.current.keys.length + r - (p.current.keys.length + r - (p.history + 1)) := by
+    rw [s2, List.length_drop, lineage_length]
+  have hprim : (rotFrom p fresh r).current.primary =
+      p.current.keys.length + r - (p.current.keys.length + r - (p.history + 1)) - 1 := by
+    rw [s4, hl]; simp only [M32]; omega
+  have hkey : (lineage p fresh r)[p.current.keys.length + r - 1]? = some k := by
+    rw [hprim, s2, List.getElem?_drop] at hk
+    rw [← hk]; congr 1; omega
+  have hek : e.key = k := by rw [he]
+  refine ⟨by rw [hek]; exact hkey, ?_, ?_⟩
+  · rw [hek]
+    have : (lineage p fresh r)[p.current.keys.length + r - 1]? = some (fresh (r - 1)) := by
+      rw [lineage, List.getElem?_append_right (by omega), List.getElem?_map,
+        List.getElem?_range (by omega)]
+      simp
+      congr 1; omega
+    rw [this] at hkey
+    exact (Option.some.inj hkey).symm
+  · rw [hb, (mkCookie_fields _ _ _ _ hn).1, hprim, s3]
+    simp only [M32] at *; omega
 
 /-- **decode_sound** — whatever `decode` accepts carries, in its nonce and ciphertext fields, the output of
     one recorded encryption made under exactly the key its id field names in this key set, and decodes to
@@ -307,6 +394,13 @@ example :
 example : (rotations (fun i => i + 10) 2 7).current = { keys := [15, 16, 17], idOffset := 5, primary := 2 } := by
   decide +kernel
 
+/-- a file with 4 keys (written under history 3) loaded with history 1 and rotated once: keys 3 and the new
+    one stay, keys 1 and 2 are gone (ages 2, 3 > 1) -/
+example :
+    let p : Provider Nat := { current := { keys := [1, 2, 3, 4], idOffset := 7, primary := 3 }, history := 1 }
+    (rotFrom p (fun i => i + 100) 1).current = { keys := [4, 100], idOffset := 10, primary := 1 } ∧
+    (lineage p (fun i => i + 100) 1).Nodup := by decide +kernel
+
 end NtpVerif.C26
 
 #print axioms NtpVerif.C26.roundtrip
@@ -314,6 +408,9 @@ end NtpVerif.C26
 #print axioms NtpVerif.C26.rotate_never_panics
 #print axioms NtpVerif.C26.issued_under_newest
 #print axioms NtpVerif.C26.window
+#print axioms NtpVerif.C26.reload_gap
+#print axioms NtpVerif.C26.window_after_reload
+#print axioms NtpVerif.C26.issued_after_reload
 #print axioms NtpVerif.C26.decode_sound
 #print axioms NtpVerif.C26.foreign_fails
 #print axioms NtpVerif.C26.tamper
